@@ -100,6 +100,12 @@ def check_placement(run, repo, eff):
             ok = False
             run.violation('C08-A', fi.relpath, fi.qualname, 'advance outside block',
                           'it_advance() is reachable when the instruction was not in an IT block')
+    for a in advs:
+        if guard_has(a.guards, lambda t: t[0] == 'finally', True):
+            ok = False
+            run.violation('C08-A', fi.relpath, fi.qualname, 'advance in a finally clause',
+                          'it_advance() runs even when the instruction raises: an instruction that takes an exception inside an IT block '
+                          'must leave ITSTATE to the exception entry (the saved SPSR would hold an IT state advanced once too often)')
     if any(l for a in advs for l in a.loops):
         ok = False
         run.violation('C08-A', fi.relpath, fi.qualname, 'advance in loop', 'it_advance() inside a loop')
